@@ -1,0 +1,76 @@
+//go:build verif
+
+package config
+
+// Contracts for gocv (see /verif/DESIGN.md). Comment-only file.
+
+//@ package config
+//@ import auth "oras.land/oras-go/v2/registry/remote/auth"
+//@ import json "encoding/json"
+//@ import os "os"
+//@
+//@ pure b64enc(s string) string
+//@ pure b64dec(s string) string
+//@ pure b64valid(s string) bool
+//@ pure hasColon(s string) bool
+//@ axiom [base64-inverse] forall s string :: b64valid(b64enc(s)) && b64dec(b64enc(s)) == s
+//@ axiom [base64-nonempty] forall s string :: strlen(s) > 0 ==> strlen(b64enc(s)) > 0
+//@ axiom [colon-in-joined] forall a, b string :: hasColon(a + ":" + b)
+//@ axiom [first-colon-split-unique] forall a, b, c, d string :: a + ":" + b == c + ":" + d && !hasColon(a) && !hasColon(c) ==> a == c && b == d
+//@
+//@ pure encSpec(u string, p string) string = (u == "" && p == "") ? "" : b64enc(u + ":" + p)
+//@ pure decRel(a string, u string, p string, e error) bool = (a == "" ==> u == "" && p == "" && e == nil)
+//@      && (a != "" && e == nil ==> b64valid(a) && b64dec(a) == u + ":" + p && !hasColon(u))
+//@      && (a != "" && b64valid(a) && hasColon(b64dec(a)) ==> e == nil)
+//@
+//@ lemma [C18:roundtrip] forall u, p, u2, p2 string, e error :: !hasColon(u) && decRel(encSpec(u, p), u2, p2, e) ==> e == nil && u2 == u && p2 == p
+//@
+//@ func encodeAuth
+//@   ensures [C18:encode] result == encSpec(username, password)
+//@   modifies alloc, new elems[byte]
+//@
+//@ func decodeAuth
+//@   ensures [C18:decode] decRel(authStr, username, password, err)
+//@   modifies alloc, new elems[byte], elems[any]
+//@
+//@ func NewAuthConfig
+//@   ensures [C18:fields] result.Auth == encSpec(cred.Username, cred.Password) && result.IdentityToken == cred.RefreshToken && result.RegistryToken == cred.AccessToken && result.Username == "" && result.Password == ""
+//@   modifies alloc, new elems[byte]
+//@
+//@ func (AuthConfig).Credential
+//@   ensures [C18:tokens] result1 == nil ==> result0.RefreshToken == ac.IdentityToken && result0.AccessToken == ac.RegistryToken
+//@   ensures [C18:auth-field-decoded] ac.Auth != "" ==> decRel(ac.Auth, result0.Username, result0.Password, result1 == nil ? nil : result1) || result1 != nil
+//@   ensures [C18:auth-field-decoded-ok] ac.Auth != "" && result1 == nil ==> b64valid(ac.Auth) && b64dec(ac.Auth) == result0.Username + ":" + result0.Password && !hasColon(result0.Username)
+//@   ensures [C18:decodable-never-fails] ac.Auth != "" && b64valid(ac.Auth) && hasColon(b64dec(ac.Auth)) ==> result1 == nil
+//@   ensures [C18:legacy-fields] ac.Auth == "" ==> result1 == nil && result0.Username == ac.Username && result0.Password == ac.Password
+//@   modifies alloc, new elems[byte], elems[any]
+//@
+//@ pure cfgWf(cfg *Config) bool = cfg != nil && cfg.content != nil && cfg.authsCache != nil && cfg.content != cfg.authsCache && alive(cfg.content) && alive(cfg.authsCache)
+//@ ghost local cfgSaves int
+//@ ghost local cfgIngestOK bool
+//@ ghost local cfgIngestPath string
+//@ func (*Config).saveFile
+//@   requires [wf] cfgWf(cfg)
+//@   entry set cfgIngestOK = false
+//@   call Ingest set cfgIngestOK = result1 == nil
+//@   call Ingest set cfgIngestPath = result0
+//@   call Ingest requires [C18:temp-in-same-directory] args.dir == filepathDir(cfg.path)
+//@   call os.Rename requires [C18:rename-complete-temp-over-config] cfgIngestOK && args.oldpath == cfgIngestPath && args.newpath == cfg.path
+//@   call os.Remove requires [C18:only-rename-touches-config-path] args.name == cfgIngestPath
+//@   ensures [C18:content-frame] forall k string :: k != "auths" && k != "credsStore" ==> (k in cfg.content) == old(k in cfg.content) && cfg.content[k] == old(cfg.content[k])
+//@   ensures [C18:auths-cache-untouched] cfg.authsCache == old(cfg.authsCache) && (forall k string :: (k in cfg.authsCache) == old(k in cfg.authsCache) && cfg.authsCache[k] == old(cfg.authsCache[k]))
+//@
+//@ func (*Config).PutCredential
+//@   requires [wf] cfgWf(cfg)
+//@   call saveFile requires [C18:lock-held-while-saving] held(lockOf(cfg, "rwLock")) == 1
+//@   ensures [C18:view] (result == nil ==> serverAddress in cfg.authsCache) && (forall k string :: k != serverAddress ==> (k in cfg.authsCache) == old(k in cfg.authsCache) && cfg.authsCache[k] == old(cfg.authsCache[k]))
+//@   ensures [C18:lock-released] held(lockOf(cfg, "rwLock")) == 0
+//@
+//@ func (*Config).DeleteCredential
+//@   requires [wf] cfgWf(cfg)
+//@   entry set cfgSaves = 0
+//@   call saveFile set cfgSaves = cfgSaves + 1
+//@   call saveFile requires [C18:lock-held-while-saving] held(lockOf(cfg, "rwLock")) == 1
+//@   ensures [C18:view] !(serverAddress in cfg.authsCache) && (forall k string :: k != serverAddress ==> (k in cfg.authsCache) == old(k in cfg.authsCache) && cfg.authsCache[k] == old(cfg.authsCache[k]))
+//@   ensures [C18:absent-means-no-write] !old(serverAddress in cfg.authsCache) ==> cfgSaves == 0 && result == nil
+//@   ensures [C18:lock-released] held(lockOf(cfg, "rwLock")) == 0
